@@ -15,16 +15,17 @@ from ..common import (gen_dataset, random_canon_tree, build_tree, extract, fores
 from ..leanio import ModelError
 
 ID = "C16"
-LEVEL = "other"
-THEOREMS = ["majority_family_laminar", "no_inconsistent_error", "parent_is_child", "consensus_clades_exact_partial",
-            "uncovered_are_minus1_partial"]
+LEVEL = "proof"
+THEOREMS = ["majority_family_laminar", "no_inconsistent_error", "parent_is_child", "own_is_clade_minus_subclades",
+            "consensus_clades_exact", "uncovered_are_minus1", "consensus_any_order", "run_succeeds"]
 EXPLANATION = ("proved on the executable model, for all traces / weights / thresholds >= 1/2 and every iteration order: the majority "
                "family is laminar; find_smallest_superset never reaches its 'Inconsistent set of clades' branch; the parent it "
-               "records is exactly the nesting (child) relation of the family; the outlier list is exactly the data no consensus "
-               "node owns; Finset-level core of 'clades of the built tree = majority clades' (own sets inside c union to c). "
-               "Two list-level bridges are open (OBLIGATION-OPEN consensus_clades_exact, uncovered_are_minus1: own sets computed by "
-               "removing the children's elements = member minus strict sub-members, and the clade list of the fuel-driven forest "
-               "builder), hence level 'other'; those clauses are decided by the correspondence and the direct oracle only")
+               "records is exactly the nesting (child) relation of the family; relabel never raises KeyError and leaves at a node "
+               "the clade minus all majority clades strictly inside it; whenever the command returns, the clades of the built "
+               "forest are exactly the clades with support > threshold (consensus_clades_exact) and the outlier list is exactly "
+               "the data indices in no majority clade (uncovered_are_minus1); the command does return on every in-domain trace "
+               "over data points 0..n-1 (run_succeeds).  The correspondence ties the model to the code, the direct oracle "
+               "decides the same clauses on the real code")
 BUDGET = {"quick": 55, "thorough": 420}
 SEARCH_BUDGET = 60
 RULE = ("mixtures of trees over one small data set (2..7 points quick / ..10 thorough, 1..10 / ..20 trees: copies and one-point "
